@@ -46,6 +46,8 @@ fixed(['C17'], 'ac19462', 'SLUFactor::assign tested the target\'s stale l.rval i
 fixed(SOLVE + ['C14'], '96460ce', 'SPxWeightST::initPrefs read row[0] of an empty array for an LP without rows (starter=weight/sum/vector): SIGSEGV')
 fixed(['C17'], '2c7ec70', 'SoPlexBase::operator= / copy constructor left _optimizeCalls/_unscaleCalls uninitialised; _reapplyPersistentScaling() of the copy branched on them (memcheck: conditional jump on uninitialised value)')
 
+fixed(['C17'], 'a80c076', 'the pricer and ratio tester cloned into a copied solver kept the Tolerances object of the source (SPxSolverBase::setTolerances did not reach them): changing tolerances of the source changed the next solve of the copy')
+
 # ------------------------------------------------------------------ open findings
 UND = r'(ABORT_CYCLING|RUNNING|UNKNOWN|ERROR|SINGULAR)'
 # --- simplex core
@@ -66,6 +68,9 @@ open_(['C05'], r'.*\.rep=row\..*',
 open_(['C05'], r'crash:.*(getBasisInverseColReal|getBasisInverseRowReal|getRowScaleExp).*',
       'row representation: getBasisInverseColReal indexes the scale-exponent array with a basis index (heap-buffer-overflow / use-after-free)', regex=True)
 open_(['C05'], r'crash:(nonrepro-)?signal:SIG(SEGV|ABRT|FPE|BUS):.*', 'row representation: the out-of-bounds writes of getBasisInverseColReal corrupt the heap of the non-sanitized volume build; the process dies later at an unrelated place (not reproducible per case)', regex=True)
+open_(['C17', 'C01', 'C02'], r'(history-dependent\.status\.OPTIMAL|complete\.OPTIMAL|cert\.(dualsign|rowdual)[a-z.\-]*):\{[^}]*starter=[123][^}]*\}.*',
+      'nonbasic free rows are never priced: SPxSolverBase::coTest() has no P_FREE case (and entering one throws XENTER02 "not yet debugged"), so a basis with a nonbasic free row - produced by the weight/sum/vector starters - is reported OPTIMAL with a nonzero dual on the free row, e.g. for an unbounded LP (same root cause as the C06 free-row warm start finding)', regex=True,
+      repro='findings/C17_starter_free_row_optimal.cpp')
 open_(['C17'], r'resolve-after-clearBasis-differs:.*',
       'solving the same unmodified object again after clearBasis() is not a replica of the first solve (different iteration count / vertex in 1-3% of the LPs): per-solve state survives clearBasis()', regex=True)
 # --- exact solver
